@@ -54,7 +54,7 @@ func c14Life(c *mon.Ctx, r *mon.Rand) {
 	case "two-one-dead":
 		opts.HostPorts = []string{mon.DeadPort()}
 	}
-	env, err := newM3Env(nSinks, opts, inj.Hook)
+	env, err := newM3EnvPorts(nSinks, opts, inj.Hook, dest == "closed-mid-run")
 	if err != nil {
 		c.Inconclusive("NewReporter: " + err.Error())
 		return
@@ -161,14 +161,30 @@ func c14Life(c *mon.Ctx, r *mon.Rand) {
 	// bounded-progress form of "Close returns": once every producer has
 	// returned, Close must return; 60 s is > 10000x the normal latency.
 	closersDone := make(chan struct{})
+	producersDone := make(chan struct{})
 	go func() {
 		wg.Wait()
+		close(producersDone)
+	}()
+	go func() {
+		dump := func() string {
+			buf := make([]byte, 1<<20)
+			n := runtime.Stack(buf, true)
+			return string(buf[:n])
+		}
+		// bounded-progress form of "completes without deadlock": a Report/Flush
+		// call normally takes microseconds (milliseconds with a full queue)
+		select {
+		case <-producersDone:
+		case <-time.After(60 * time.Second):
+			bad("m3-call-does-not-return", "Report/Flush callers are still blocked after 60s; goroutines:\n"+dump())
+			c.Finish()
+			os.Exit(1)
+		}
 		select {
 		case <-closersDone:
 		case <-time.After(60 * time.Second):
-			buf := make([]byte, 1<<20)
-			n := runtime.Stack(buf, true)
-			bad("m3-close-does-not-return", "every producer has returned but Close has not returned after 60s; goroutines:\n"+string(buf[:n]))
+			bad("m3-close-does-not-return", "every producer has returned but Close has not returned after 60s; goroutines:\n"+dump())
 			c.Finish()
 			os.Exit(1)
 		}
